@@ -19,6 +19,7 @@ type specEnv struct {
 	depth   int
 	lookupOld func(name string) (TV, bool) // entry-state values of variables, used inside old(...)
 	iterKey   string                       // heap key of the iterator position of the loop whose invariant is being translated
+	loopEntryHeap map[string]string         // heap in which the loop was entered (atentry(e) in loop clauses)
 	prevHeap   map[string]string            // heap at the head of the current iteration (step clauses)
 	lookupPrev func(name string) (TV, bool)
 }
@@ -622,6 +623,20 @@ func (env *specEnv) call(n *SCall) (TV, error) {
 		}
 		r, err := env.Term(n.Args[0])
 		env.heapAt, env.lookup = saved, savedL
+		return r, err
+	case "atentry":
+		// atentry(e): e in the state in which the loop was entered; only heap-based ghost/field expressions
+		// over parameters (local SSA values are those of the current point)
+		if err := argN(1); err != nil {
+			return TV{}, err
+		}
+		if env.loopEntryHeap == nil {
+			return TV{}, fmt.Errorf("atentry() is only meaningful in a loop invariant or step clause")
+		}
+		savedH := env.heapAt
+		env.heapAt = env.loopEntryHeap
+		r, err := env.Term(n.Args[0])
+		env.heapAt = savedH
 		return r, err
 	case "prev":
 		if err := argN(1); err != nil {
